@@ -3,6 +3,7 @@ import Ruint.Lemmas.GenBits
 import Ruint.Lemmas.GenBitsWrap
 import Ruint.Lemmas.GenBitsIter
 import Mathlib.Data.Nat.Size
+import Ruint.Lemmas.GenUintModBits
 
 /-!
 # C06 — bitwise logic, bit access and bit counting agree with the binary expansion
@@ -370,5 +371,11 @@ theorem gen_most_significant_bits_eq (bits : ℕ) (hN : nlimbs bits < 2 ^ 57) (a
 theorem gen_reverse_bits_eq (bits : ℕ) (hN : nlimbs bits < 2 ^ 64) (a : List ℕ) (ha : Canon bits a) :
     Ruint.Gen.uint_reverse_bits (nlimbs bits + 1) bits (nlimbs bits) a = reverseBits bits a :=
   Ruint.GenBitsIter.reverse_bits_eq bits hN a ha.1
+
+/-- `next_power_of_two` (`checked_next_power_of_two().unwrap()`: `none` = panic) as regenerated from `src/special.rs`
+    equals the model. -/
+theorem gen_next_power_of_two_eq (bits : ℕ) (hN : nlimbs bits < 2 ^ 57) (a : List ℕ) (ha : Canon bits a) :
+    Ruint.Gen.uint_next_power_of_two (nlimbs bits + 1) bits (nlimbs bits) a = Ruint.Bits.nextPowerOfTwo bits a :=
+  Ruint.GenUintMod.next_power_of_two_eq bits hN a ha
 
 end Ruint.C06
